@@ -274,6 +274,41 @@ static void traceCurve(Ctx &C, ob::SE2StateSpace *sp, const std::string &name, b
     Pose E = getPose(s);
     if (std::hypot(E.x - B.x, E.y - B.y) > tol || angDiff(E.th, B.th) > tol)
         fail("C14|" + name + "|end-pose", "interpolate(.., 1) ends at (" + vf::jnum(E.x) + "," + vf::jnum(E.y) + "," + vf::jnum(E.th) + ") instead of the target");
+    // the path-caching overload (the one the motion validators trace with): a loop that reuses one flag / path object must produce
+    // the poses of the plain overload whatever parameter comes first - ascending from 0, descending from 1, or starting inside
+    {
+        ob::State *s2 = sp->allocState();
+        static const std::vector<std::vector<double>> grids = {{0.0, 0.25, 0.5, 1.0}, {1.0, 0.6, 0.3, 0.0}, {0.4, 0.0, 1.0, 0.7}, {-0.5, 0.5, 1.5, 0.9}};
+        for (size_t gi = 0; gi < grids.size(); ++gi)
+        {
+            bool first = true, bad = false;
+            ob::DubinsStateSpace::DubinsPath dpath;
+            ob::ReedsSheppStateSpace::ReedsSheppPath rpath;
+            auto *D = dynamic_cast<ob::DubinsStateSpace *>(sp);
+            auto *R = dynamic_cast<ob::ReedsSheppStateSpace *>(sp);
+            for (double t : grids[gi])
+            {
+                if (D)
+                    D->interpolate(a, b, t, first, dpath, s);
+                else if (R)
+                    R->interpolate(a, b, t, first, rpath, s);
+                else
+                    break;
+                sp->interpolate(a, b, t, s2);
+                Pose p = getPose(s), q = getPose(s2);
+                // (at t = 0 / 1 the plain overload copies the end state, the cached one walks the float path: the solver's own tolerance)
+                if (std::hypot(p.x - q.x, p.y - q.y) > tol || angDiff(p.th, q.th) > tol)
+                {
+                    fail("C14|" + name + "|cached-path-overload-differs", "tracing with the path-caching overload of interpolate() over the parameters of grid " + std::to_string(gi) + " gives (" + vf::jnum(p.x) + "," + vf::jnum(p.y) + "," + vf::jnum(p.th) + ") at t=" + vf::jnum(t) + ", the plain overload (" + vf::jnum(q.x) + "," + vf::jnum(q.y) + "," + vf::jnum(q.th) + ")");
+                    bad = true;
+                    break;
+                }
+            }
+            if (bad)
+                break;
+        }
+        sp->freeState(s2);
+    }
     // summed chords converge to the arc length from below
     double slack = d * (ds / C.rho) * (ds / C.rho) / 24 + (reversals ? 4 : 2) * ds * 0 + tol;  // chord vs arc: 1 - (ds/rho)^2/24
     if (chordSum > d + tol)
